@@ -1635,6 +1635,10 @@ def _run_ser_case(case):
         rb = app(b, eb, op)
         settled = False
         if op == "zsubmit" and ra.startswith("ret:") and rb == "future":
+            from pathlib import Path
+
+            for f in Path(b.label).rglob("*.tmp"):  # the result file of an abandoned job must not fail THIS job
+                f.unlink()
             eb.settle()
             settled = True
         if op in ("zrun", "zsubmit") and ra.startswith("ret:") and len(nc.CALLS["c"]) == k and not a.running:
@@ -1642,6 +1646,8 @@ def _run_ser_case(case):
         line = f"c={ra} u={rb} vc={vis(a)} vu={vis(b)}"
         rows.append({"op": op, "c": ra, "u": rb, "vc": vis(a), "vu": vis(b), "settled": settled, "line": line})
         obs.append(line)
+        if settled:
+            break  # the twins' executors (withheld futures, result files) are no longer in step: the history ends here
     return {"obs": obs, "rows": rows, "hits": hits, "special": 1,
             "stats": {"ser_cases": 1, "ser_hits": hits, "ser_pickups": sum(1 for r in rows if r["op"] in ("zrun", "zsubmit")
                                                                            and r["vu"].endswith("false") and "F(" in r["u"]
